@@ -330,7 +330,7 @@ RET_GP = ['rax', 'rdx']
 
 def ret_locs(t):
     """psABI return location of each eightbyte of type t: [('gp', i)|('sse', i)] or 'MEMORY'"""
-    if t in STRUCTS and size_of(t) == 16 and [m for m, o in STRUCTS[t][2]] == ['ldouble']:
+    if t in STRUCTS and size_of(t) == 16 and [m for m, o in STRUCTS[t][2] if m != 'empty'] == ['ldouble']:
         return 'X87'            # one long double: classes X87, X87UP -> returned in %st(0) (psABI 3.2.3 return rule 6)
     c = classify(t)
     if c == ['MEMORY']:
